@@ -203,3 +203,33 @@ func VH_C18_reject_complete_roundtrip() {
 		vrt.Assert(d.UePolDeliveryHeader == u.UePolDeliveryHeader, "complete header round-trips")
 	}
 }
+
+// deep totality: well-formed outer layers (sub-list with valid PLMN digits, instruction) around symbolic inner
+// bytes, so that the instruction and policy-part parsers see every length field value within short inputs.
+func VH_C18_nested_any() {
+	k := vrt.Choose("inner", 0, 6)
+	if vrt.Thorough() {
+		k = vrt.Choose("inner2", 0, 8)
+	}
+	inner := vrt.Bytes("x", k) // everything after the sub-list PLMN: instruction length, UPSC, parts ...
+	d := func(n string) byte {
+		v := vrt.U8(n)
+		vrt.Assume(v <= 9)
+		return v
+	}
+	b := []byte{0, byte(3 + k), d("a")<<4 | d("b"), 0xf0 | d("c"), d("e")<<4 | d("f")}
+	b = append(b, inner...)
+	var l UEPolicySectionManagementListContent
+	_ = l.UnmarshalBinary(b)
+	// and with the instruction header well-formed as well, symbolic policy-part bytes
+	j := vrt.Choose("partBytes", 0, 5)
+	part := vrt.Bytes("y", j)
+	c := []byte{0, byte(3 + 4 + j), b[2], b[3], b[4], 0, byte(2 + j), vrt.U8("u0"), vrt.U8("u1")}
+	c = append(c, part...)
+	var l2 UEPolicySectionManagementListContent
+	_ = l2.UnmarshalBinary(c)
+	// same through the whole message
+	msg := append([]byte{vrt.U8("pti"), MsgTypeManageUEPolicyCommand, 0x01, 0, byte(len(c))}, c...)
+	u := NewUePolDeliverySer()
+	_ = u.UePolDeliverySerDecode(msg)
+}
